@@ -83,4 +83,7 @@ M_C13_AllRunners == (status = "ok") => IsSortedPerm(ran, sc.runners)
 M_C13_AfterReady == ran # <<>> => \A c \in 1..K : initCnt[c] = 1 /\ aft[c] = NP
 M_C09_NoPanic == status # "panic"
 M_C14_ClosedAll == closeRet => \A j \in 1..NC : cst[j] = "ended"
+\* observable form of C14_Isolation: the harness holds every closer on a gate and opens the first one only when all closers have been
+\* invoked (or after 3 s): when the first Close call returns, no closer is still waiting to be invoked behind the slow ones
+M_C14_Isolation == [][(E.ev = "closeEnd") => \A j \in 1..NC : cst[j] # "idle"]_<<vars, l, aft, bad>>
 =============================================================================
